@@ -17,7 +17,15 @@ use crate::simfs::SimFs;
 use crate::{dbutil, watch};
 
 pub fn plan(tier: &str) -> u64 {
-    n_history(tier) + n_forced(tier) + n_split(tier)
+    n_history(tier) + n_forced(tier) + n_split(tier) + n_concurrent(tier)
+}
+
+fn n_concurrent(tier: &str) -> u64 {
+    if tier == "quick" {
+        48
+    } else {
+        600
+    }
 }
 
 fn n_forced(tier: &str) -> u64 {
@@ -609,8 +617,317 @@ pub fn run_case(tier: &str, seed: u64, idx: u64) -> CaseOut {
         case_history(&mut out, tier, seed, idx);
     } else if idx < nh + nf {
         case_forced(&mut out, seed, idx - nh);
-    } else {
+    } else if idx < nh + nf + n_split(tier) {
         case_split(&mut out, tier, seed, idx - nh - nf);
+    } else {
+        case_concurrent(&mut out, tier, seed, idx - nh - nf - n_split(tier));
     }
     out
+}
+
+// ------------------------------------------------------------------------------------------------
+// Snapshots and iterators taken WHILE writers are running.
+//
+// Each writer owns a disjoint set of keys and applies its operations one after the other, so the
+// state of its keys after every prefix of its operations is known exactly. A view taken between
+// stamps s0 (before the call that creates the snapshot / iterator) and s1 (after it returned) must,
+// restricted to one writer's keys, equal the state after some prefix p of that writer's
+// operations with  #(operations that returned before s0) <= p <= #(operations issued before s1).
+// That is what "the state that was committed when the snapshot was taken" means when the moment
+// is only known up to the duration of the call. The view is then read again and again (gets,
+// forward and backward scans, the same iterator re-positioned) while the writers, flushes and
+// compactions go on: every reading must equal the first one, and gets must agree with scans.
+
+struct WriterOp {
+    ops: Vec<WriteOp>,
+    call: u64,
+    ret: u64,
+}
+
+struct ViewRec {
+    kind: &'static str,
+    s0: u64,
+    s1: u64,
+    view: Map,
+    rereads: u64,
+    reader: usize,
+}
+
+fn scan_iter<I>(it: &mut I, backward: bool) -> Result<Map, String>
+where
+    I: raindb::RainDbIterator<Key = Vec<u8>>,
+    I::Error: std::fmt::Display,
+{
+    let mut m = Map::new();
+    let mut prev: Option<Vec<u8>> = None;
+    if backward { it.seek_to_last() } else { it.seek_to_first() }.map_err(|e| e.to_string())?;
+    while it.is_valid() {
+        let (k, v) = it.current().unwrap();
+        if let Some(p) = &prev {
+            if (backward && k >= p) || (!backward && k <= p) {
+                return Err(format!("keys out of order or repeated: {} after {}", show(k), show(p)));
+            }
+        }
+        prev = Some(k.clone());
+        m.insert(k.clone(), v.clone());
+        if backward { it.prev() } else { it.next() };
+    }
+    if let Some(e) = it.status() {
+        return Err(format!("iterator status: {e}"));
+    }
+    Ok(m)
+}
+
+fn case_concurrent(out: &mut CaseOut, tier: &str, seed: u64, idx: u64) {
+    use crate::director::Delay;
+    use raindb::{Batch, RainDbIterator, WriteOptions};
+    use std::sync::atomic::{AtomicBool, AtomicU64, Ordering};
+    use std::sync::Arc;
+
+    let mut rng = Rng::new(mix(&[seed, idx], "c03-concurrent"));
+    let d = director();
+    d.reset(rng.next_u64());
+    d.set_default_delay(Some(Delay { probability: 0.02, min_us: 0, max_us: 150 }));
+    let hot = *rng.pick(&["write.after_wal", "write.after_mem", "write.before_wal", "flush.after_build", "manifest.after_append", "compact.step", "gc.before_delete", "get.before_tables"]);
+    d.set_delay(hot, Delay { probability: 0.4, min_us: 100, max_us: 3000 });
+    let cfg = Config {
+        memtable: *rng.pick(&[256usize, 512, 1024, 4096]),
+        file: *rng.pick(&[512u64, 2048, 1 << 20]),
+        block: *rng.pick(&[32usize, 256, 4096]),
+        reuse: true,
+    };
+    let fs = SimFs::from_image(&dbutil::root_image());
+    fs.set_strict_unlink(true);
+    let mut sess = Session::new(fs, cfg);
+    sess.fill_cache = false;
+    if let Err(e) = sess.open() {
+        out.violate("C03/open-failed", json!({"error": e}));
+        return;
+    }
+    let db = sess.db_arc();
+    let writers = rng.range(2, 4) as usize;
+    let readers = rng.range(1, 3) as usize;
+    let per_writer = if tier == "quick" { rng.range(60, 140) } else { rng.range(100, 400) } as usize;
+    let keys_per_writer = rng.range(3, 12);
+    let clock = Arc::new(AtomicU64::new(1));
+    let stop = Arc::new(AtomicBool::new(false));
+    let ctx = json!({"family": "concurrent-snapshots", "config": cfg.describe(), "writers": writers, "readers": readers, "ops_per_writer": per_writer,
+        "keys_per_writer": keys_per_writer, "hot_point": hot});
+    let mut whandles = vec![];
+    for t in 0..writers {
+        let (db, clock) = (Arc::clone(&db), Arc::clone(&clock));
+        let mut trng = Rng::new(mix(&[seed, idx, t as u64], "c03-concurrent-writer"));
+        whandles.push(std::thread::Builder::new().name(format!("c03-writer-{t}")).spawn(move || {
+            set_role(t as u32 + 1);
+            let mut log: Vec<WriterOp> = vec![];
+            let mut counter = 0u64;
+            for _ in 0..per_writer {
+                watch::tick();
+                let n = if trng.chance(0.6) { 1 } else { trng.range(2, 6) as usize };
+                let mut ops: Vec<WriteOp> = vec![];
+                for _ in 0..n {
+                    let k = format!("w{t}-{:02}", trng.below(keys_per_writer)).into_bytes();
+                    if trng.chance(0.25) {
+                        ops.push((k, None));
+                    } else {
+                        counter += 1;
+                        let len = trng.range(8, 48) as usize;
+                        ops.push((k, Some(gen::tagged_value(&mut trng, &format!("w{t}c{counter}:"), len))));
+                    }
+                }
+                let mut batch = Batch::new();
+                for (k, v) in &ops {
+                    match v {
+                        Some(v) => batch.add_put(k.clone(), v.clone()),
+                        None => batch.add_delete(k.clone()),
+                    };
+                }
+                let call = clock.fetch_add(1, Ordering::SeqCst);
+                let r = {
+                    let _g = watch::enter("write");
+                    db.apply(WriteOptions::default(), batch)
+                };
+                let ret = clock.fetch_add(1, Ordering::SeqCst);
+                if r.is_err() {
+                    return (log, Some(format!("{:?}", r.err().map(|e| e.to_string()))));
+                }
+                log.push(WriterOp { ops, call, ret });
+                if trng.chance(0.02) {
+                    let _g = watch::enter("compact_range");
+                    db.compact_range(None..None);
+                }
+            }
+            (log, None)
+        }).unwrap());
+    }
+    let mut rhandles = vec![];
+    for r in 0..readers {
+        let (db, clock, stop) = (Arc::clone(&db), Arc::clone(&clock), Arc::clone(&stop));
+        let mut rrng = Rng::new(mix(&[seed, idx, r as u64], "c03-concurrent-reader"));
+        let all_keys: Vec<Vec<u8>> = (0..writers).flat_map(|t| (0..keys_per_writer).map(move |i| format!("w{t}-{i:02}").into_bytes())).collect();
+        rhandles.push(std::thread::Builder::new().name(format!("c03-reader-{r}")).spawn(move || {
+            set_role(20 + r as u32);
+            let mut views: Vec<ViewRec> = vec![];
+            let mut problems: Vec<(String, serde_json::Value)> = vec![];
+            while !stop.load(Ordering::SeqCst) && views.len() < 400 && problems.len() < 3 {
+                watch::tick();
+                let use_iterator_only = rrng.chance(0.3);
+                if use_iterator_only {
+                    // an iterator without an explicit snapshot: the state at its creation
+                    let s0 = clock.fetch_add(1, Ordering::SeqCst);
+                    let it = { let _g = watch::enter("new_iterator"); db.new_iterator(ReadOptions { fill_cache: false, snapshot: None }) };
+                    let s1 = clock.fetch_add(1, Ordering::SeqCst);
+                    let mut it = match it { Ok(it) => it, Err(e) => { problems.push(("new-iterator-failed".into(), json!({"error": e.to_string()}))); break; } };
+                    let first = { let _g = watch::enter("scan"); scan_iter(&mut it, false) };
+                    let view = match first { Ok(m) => m, Err(e) => { problems.push(("iterator-scan-failed".into(), json!({"error": e}))); break; } };
+                    let mut rereads = 0;
+                    for round in 0..rrng.range(1, 5) {
+                        std::thread::sleep(Duration::from_micros(rrng.range(50, 3000)));
+                        let again = { let _g = watch::enter("scan"); scan_iter(&mut it, round % 2 == 0) };
+                        match again {
+                            Ok(m) if m == view => rereads += 1,
+                            Ok(m) => {
+                                let diff: Vec<String> = all_keys.iter().filter(|k| m.get(*k) != view.get(*k)).take(5).map(|k| format!("{}: first {} later {}", show(k), show_opt(view.get(k).map(|v| &v[..])), show_opt(m.get(k).map(|v| &v[..])))).collect();
+                                problems.push(("iterator-view-changed-over-time".into(), json!({"round": round, "backward": round % 2 == 0, "differences": diff})));
+                                break;
+                            }
+                            Err(e) => { problems.push(("iterator-scan-failed".into(), json!({"error": e}))); break; }
+                        }
+                    }
+                    drop(it);
+                    views.push(ViewRec { kind: "iterator", s0, s1, view, rereads, reader: r });
+                    continue;
+                }
+                let s0 = clock.fetch_add(1, Ordering::SeqCst);
+                let snap = { let _g = watch::enter("get_snapshot"); db.get_snapshot() };
+                let s1 = clock.fetch_add(1, Ordering::SeqCst);
+                let ro = || ReadOptions { fill_cache: false, snapshot: Some(snap.clone()) };
+                let read_gets = |keys: &[Vec<u8>]| -> Result<Map, String> {
+                    let mut m = Map::new();
+                    for k in keys {
+                        let _g = watch::enter("get");
+                        match db.get(ro(), k) {
+                            Ok(v) => { m.insert(k.clone(), v); }
+                            Err(RainDBError::KeyNotFound) => {}
+                            Err(e) => return Err(e.to_string()),
+                        }
+                    }
+                    Ok(m)
+                };
+                let view = match read_gets(&all_keys) { Ok(m) => m, Err(e) => { problems.push(("snapshot-get-failed".into(), json!({"error": e}))); db.release_snapshot(snap); break; } };
+                let mut rereads = 0;
+                let rounds = rrng.range(1, 6);
+                for round in 0..rounds {
+                    let how = rrng.below(3);
+                    let again = if how == 0 { read_gets(&all_keys) } else {
+                        let _g = watch::enter("scan");
+                        match db.new_iterator(ro()) { Ok(mut it) => scan_iter(&mut it, how == 2), Err(e) => Err(e.to_string()) }
+                    };
+                    match again {
+                        Ok(m) if m == view => rereads += 1,
+                        Ok(m) => {
+                            let diff: Vec<String> = all_keys.iter().filter(|k| m.get(*k) != view.get(*k)).take(5).map(|k| format!("{}: first get {} later {}", show(k), show_opt(view.get(k).map(|v| &v[..])), show_opt(m.get(k).map(|v| &v[..])))).collect();
+                            let foreign: Vec<String> = m.keys().filter(|k| !all_keys.contains(k)).take(3).map(|k| show(k)).collect();
+                            problems.push((if how == 0 { "snapshot-gets-changed-over-time" } else { "snapshot-scan-disagrees-with-gets" }.into(),
+                                json!({"round": round, "how": (["gets", "forward scan", "backward scan"][how as usize]), "differences": diff, "unknown_keys": foreign})));
+                            break;
+                        }
+                        Err(e) => { problems.push(("snapshot-read-failed".into(), json!({"error": e, "how": how}))); break; }
+                    }
+                    std::thread::sleep(Duration::from_micros(rrng.range(50, 4000)));
+                }
+                { let _g = watch::enter("release_snapshot"); db.release_snapshot(snap); }
+                views.push(ViewRec { kind: "snapshot", s0, s1, view, rereads, reader: r });
+            }
+            (views, problems)
+        }).unwrap());
+    }
+    let mut logs: Vec<Vec<WriterOp>> = vec![];
+    let mut refused = None;
+    for h in whandles {
+        match h.join() {
+            Ok((log, err)) => {
+                if err.is_some() { refused = err; }
+                logs.push(log);
+            }
+            Err(_) => { logs.push(vec![]); refused = Some("writer thread panicked".into()); }
+        }
+    }
+    stop.store(true, Ordering::SeqCst);
+    let mut views: Vec<ViewRec> = vec![];
+    for h in rhandles {
+        if let Ok((v, problems)) = h.join() {
+            for (class, detail) in problems {
+                out.violate(format!("C03/concurrent/{class}"), json!({"ctx": ctx, "detail": detail}));
+            }
+            views.extend(v);
+        } else {
+            out.violate("C03/concurrent/reader-thread-panicked", json!({"ctx": ctx}));
+        }
+    }
+    d.clear_delays();
+    drop(db);
+    let installs = d.note_count("version.install");
+    let picks = pick_counts();
+    if let Some(e) = refused {
+        out.inconclusive(format!("degenerate: a write was refused without any fault: {e}"));
+    } else {
+        // judge every view against the writers' prefixes
+        let mut judged = 0u64;
+        let mut pinned_tight = 0u64;
+        for v in &views {
+            for (t, log) in logs.iter().enumerate() {
+                let prefix = format!("w{t}-").into_bytes();
+                let mine: Map = v.view.iter().filter(|(k, _)| k.starts_with(&prefix)).map(|(k, v)| (k.clone(), v.clone())).collect();
+                let lo = log.iter().filter(|o| o.ret < v.s0).count();
+                let hi = log.iter().filter(|o| o.call < v.s1).count();
+                let mut state = Map::new();
+                for o in &log[..lo] {
+                    crate::session::apply_to_map(&mut state, &o.ops);
+                }
+                let mut found = state == mine;
+                let mut p = lo;
+                while !found && p < hi {
+                    crate::session::apply_to_map(&mut state, &log[p].ops);
+                    p += 1;
+                    found = state == mine;
+                }
+                judged += 1;
+                if hi - lo <= 1 {
+                    pinned_tight += 1;
+                }
+                if !found {
+                    let mut at_lo = Map::new();
+                    for o in &log[..lo] {
+                        crate::session::apply_to_map(&mut at_lo, &o.ops);
+                    }
+                    let keys: BTreeSet<&Vec<u8>> = at_lo.keys().chain(mine.keys()).collect();
+                    let diff: Vec<String> = keys.iter().filter(|k| at_lo.get(**k) != mine.get(**k)).take(6)
+                        .map(|k| format!("{}: after {} ops {} view {}", show(k), lo, show_opt(at_lo.get(*k).map(|v| &v[..])), show_opt(mine.get(*k).map(|v| &v[..])))).collect();
+                    out.violate(format!("C03/concurrent/{}-is-no-state-the-writer-ever-had", v.kind),
+                        json!({"ctx": ctx, "writer": t, "reader": v.reader, "prefix_range": [lo, hi], "writer_ops": log.len(), "differences_from_earliest_legal_state": diff}));
+                    break;
+                }
+            }
+            if out.violations.len() >= 3 {
+                break;
+            }
+        }
+        out.add("views_taken_while_writers_ran", views.len() as u64);
+        out.add("views.iterator", views.iter().filter(|v| v.kind == "iterator").count() as u64);
+        out.add("view_rereads_equal", views.iter().map(|v| v.rereads).sum());
+        out.add("writer_prefix_judgements", judged);
+        out.add("writer_prefix_judgements_pinned_to_at_most_two_states", pinned_tight);
+        out.add("version_installs_during_concurrent_cases", installs);
+        let outlived = views.len() as u64 > 0 && installs >= 2;
+        if outlived && judged > 0 {
+            out.nontrivial(format!("concurrent/{}/w{writers}r{readers}/{}/picks{}-{}-{}", cfg.class(), hot, picks.0.min(3), picks.1.min(2), picks.2.min(2)));
+        }
+    }
+    if watch::bg_panics().is_empty() {
+        sess.close();
+    } else {
+        std::mem::forget(sess);
+    }
+    out.sample = Some(json!({"family": "concurrent-snapshots", "ctx": ctx, "views": views.len()}));
 }
